@@ -376,7 +376,7 @@ class Check:
             path = os.path.join("replays", "%s-%s-seed%d.json" % (self.pid, self.tier, self.seed))
             with open(os.path.join(VERIF, path), "w") as f:
                 json.dump({"property": self.pid, "broken_ties": self.broken_ties, "count": len(self.violations),
-                           "violations": self.violations[:50],
+                           "violations": self.violations[:400],
                            "replay": "./check %s --replay %s" % (self.pid, path)}, f, indent=1)
             print("VIOLATION property=%s replay=%s" % (self.pid, path))
             v = self.violations[0]
